@@ -28,6 +28,8 @@ def run(chk):
         'parse_board_settings reads exactly Deal/Dealer/Vulnerable/Board through converters with library types (typed-field flow).')
     schemas = load_schemas(repo, 'C17.R1')
     # ---- R1 JSON ---------------------------------------------------------------------------------------------------------
+    from .jsonfile import settings_rule
+    settings_rule(chk, 'C17.R7')
     rec = WriterRecord(repo, 'JsonBoardSettingWriter', 'C17.R1', chk=chk)
     check_writer_schema(chk, 'C17.R1', rec, 'board_setting_format.schema.json', ['properties', 'board_settings', 'items'], schemas)
     setting = ReaderRecord(repo, 'convert_board_setting', 'BoardSetting', 'C17.R1')
